@@ -27,7 +27,8 @@ META = {
              "once or a fault fired"),
     "abstract_measure": "distinct (handles open at once) values",
     "gates": {"quick": {"handles_overlap": 1500, "two_clients": 800, "pickle_boundary": 500,
-                        "io_error": 300, "self_overlapping_delim": 400, "two_blocksizes_one_compute": 300},
+                        "io_error": 300, "self_overlapping_delim": 400, "two_blocksizes_one_compute": 300,
+                        "universal_newlines": 500},
               "thorough": {"handles_overlap": 1500}},
     "anchors": ["dask/bytes/core.py", "dask/bag/text.py"],
     "real": ["dask.bytes.core.read_bytes / read_block_from_file", "dask.bag.text.read_text / file_to_blocks / "
@@ -42,6 +43,9 @@ META = {
 
 DELIMS = ["\n", "|", "||", "aa", "ab", "\r\n", "é", "aba"]
 ALPHA = ["a", "b", "x", "é", "漢", " "]
+# default linedelimiter (None): universal newlines -- "\n", "\r\n" and a bare "\r" end a line and read as
+# "\n"; the other characters str.splitlines() breaks at are ordinary characters for a text file
+UNIVERSAL_ALPHA = ALPHA + ["\r", "\r\n", "\x0b", "\x0c", "\x1c", "\x1d", "\x1e", "\x85", "\u2028", "\u2029"]
 
 
 GC_EACH_RUN = True  # see sim/worker.run_tape
@@ -57,7 +61,7 @@ def setup(cfg):
     simfs.install()
 
 
-def gen_text(tape, delim, maxlen):
+def gen_text(tape, delim, maxlen, alpha=ALPHA):
     kind = tape.draw(8, "tkind")
     if kind == 0:
         return ""
@@ -70,7 +74,7 @@ def gen_text(tape, delim, maxlen):
         elif r == 4 and len(delim) > 1:
             parts.append(delim[0])          # a partial delimiter
         else:
-            parts.append(ALPHA[tape.draw(len(ALPHA), "a")])
+            parts.append(alpha[tape.draw(len(alpha), "a")])
     if kind == 1:
         parts = [p for p in parts if p != delim]    # no delimiter at all
     if kind == 2:
@@ -80,7 +84,9 @@ def gen_text(tape, delim, maxlen):
     return "".join(parts)
 
 
-def ref_lines(text, delim):
+def ref_lines(text, delim, universal=False):
+    if universal:
+        text = text.replace("\r\n", "\n").replace("\r", "\n")
     if not text:
         return []
     parts = text.split(delim)
@@ -98,8 +104,12 @@ def run_one(tape, cfg):
     simfs.reset()
     with tape.span("workload"):
         delim = DELIMS[tape.draw(len(DELIMS), "delim")]
+        universal = tape.chance(1, 6, "universal")
+        if universal:
+            delim = "\n"
         nfiles = 1 + tape.draw(3, "nfiles")
-        texts = [gen_text(tape, delim, cfg["maxlen"]) for _ in range(nfiles)]
+        texts = [gen_text(tape, delim, cfg["maxlen"], UNIVERSAL_ALPHA if universal else ALPHA)
+                 for _ in range(nfiles)]
         datas = [t.encode() for t in texts]
         maxb = max(len(d) for d in datas) + 2
         blocksize = None if tape.draw(5, "bsnone") == 0 else 1 + tape.draw(maxb, "bs")
@@ -112,6 +122,8 @@ def run_one(tape, cfg):
         if blocksize is not None and tape.chance(1, 3, "two_reads"):
             blocksize2 = 1 + tape.draw(maxb, "bs2")
         api = ("read_bytes", "read_text")[tape.draw(2, "api")]
+        if universal:
+            api = "read_text"
         klass = tape.weighted([(4, "threads"), (3, "two_clients"), (2, "pickle"), (2, "io_error")], "klass")
         nworkers = 2 + tape.draw(3, "nw")
         policy = tape.choice(SimThreads.POLICIES, "policy")
@@ -122,7 +134,9 @@ def run_one(tape, cfg):
         simfs.put(p, d)
     if blocksize2 is not None and blocksize2 != blocksize:
         out.probe("two_blocksizes_one_compute")
-    wl = {"delim": delim, "texts": texts, "blocksize": blocksize, "blocksize2": blocksize2,
+    if universal:
+        out.probe("universal_newlines")
+    wl = {"delim": None if universal else delim, "texts": texts, "blocksize": blocksize, "blocksize2": blocksize2,
           "files_per_partition": fpp,
           "include_path": include_path, "api": api, "class": klass, "nworkers": nworkers, "policy": policy}
     out.decoded = wl
@@ -140,6 +154,8 @@ def run_one(tape, cfg):
                            include_path=include_path)
             return r
         kw = {"linedelimiter": delim, "include_path": include_path}
+        if universal:
+            del kw["linedelimiter"]
         if bs is not None:
             kw["blocksize"] = bs
         if fpp is not None:
@@ -184,7 +200,7 @@ def run_one(tape, cfg):
             return None
         want = []
         for p, t in zip(paths, texts):
-            for ln in ref_lines(t, delim):
+            for ln in ref_lines(t, delim, universal):
                 want.append((ln, p.replace("simfs://", "/")) if include_path else ln)
         got = list(val)
         if include_path:
